@@ -73,5 +73,12 @@ def finish(agg, tier):
 
 
 def replay(case):
-    sig = case.get("_sig") or {}
-    return replay_through(case, lambda ctx, c: [SafetyMonitor(ctx, ninputs=12, compile_every=1)])
+    from ..gen_input import InputSpec
+
+    spec = InputSpec.from_json(case["input"]) if case.get("input") else None
+    want = case.get("inner_op")
+    return replay_through(
+        case,
+        lambda ctx, c: [SafetyMonitor(ctx, ninputs=12, compile_every=1, forced_spec=spec)],
+        match=(lambda sig: sig.get("op") == want and sig.get("monitor") == case.get("monitor")) if want else None,
+    )
